@@ -26,7 +26,7 @@ MODS = (
 TRUSTED_EIG = (
     "scipy.linalg.eig(M, left=True, right=False) replaced by its contract: real eigenvalues w and left eigenvectors vl with vl[:,l]^T M = w[l] vl[:,l]^T (real, distinct eigenvalues are the property's precondition); deterministic",
     "scipy.linalg.solve(V, j) replaced by its contract: x with V x = j",
-    "mathematical fact (stated): sum_l A_l = j and K A_l^T = -r_l A_l^T characterise the solution of c' = Kc, c(0) = j",
+    "that sum_l A_l = j and K A_l^T = -r_l A_l^T imply sum_l A[l,c] exp(-r_l t) = (exp(K t) j)_c is the Lean theorem PyVC.decay_concentration (lemmas/DecayODE.lean, every number of compartments, no condition on the eigenvalues; re-checked every run)",
 )
 
 
@@ -256,6 +256,8 @@ class AMatrixSolvesODE(Contract):
         # conservation when K has no loss channel
         if not any(to == fr for to, fr in inp["struct"]):
             yield "columns_of_K_sum_to_zero_without_loss", L.and_(*[L.eq(L.sum([out["full"][a][b] for a in range(n)]), 0.0) for b in range(n)])
+            # d/dt sum_c c_c(t) = -sum_l r_l exp(-r_l t) sum_c A[l][c]: every decaying component carries no net population
+            yield "total_population_conserved_without_loss", L.and_(*[L.eq(r[l] * L.sum([A[l][c] for c in range(n)]), 0.0) for l in range(n)])
 
 
 class KMatrixFull(Contract):
@@ -385,7 +387,7 @@ class DecayMegacomplexMatrix(Contract):
     agreement_runs = 0
 
     def cases(self, tier):
-        for kind in ("decay-sequential", "decay-parallel", "decay-chain", "decay-chain-initial-order", "decay-two-kmatrices"):
+        for kind in ("decay-sequential", "decay-parallel", "decay-chain", "decay-chain-initial-order", "decay-two-kmatrices", "decay-kmatrices-override"):
             for n in (1, 2, 3) if tier == "quick" else (1, 2, 3, 4):
                 if kind == "decay-two-kmatrices" and n < 2:
                     continue
@@ -431,6 +433,13 @@ class DecayMegacomplexMatrix(Contract):
             if kind == "decay-two-kmatrices":
                 items = list(entries.items())
                 kms = [KMatrix(label="k1", matrix=dict(items[:1])), KMatrix(label="k2", matrix=dict(items[1:]))]
+            elif kind == "decay-kmatrices-override":
+                # entries declared in several K-matrices: the later one wins (KMatrix.combine, right biased)
+                stale = {key: Parameter(label=f"stale.{i+1}", value=S.real(f"stale_{i}")) for i, key in enumerate(entries)}
+                first = dict(list(stale.items()))
+                second = dict(list(entries.items())[:1]) | dict(list(stale.items())[1:])
+                third = dict(list(entries.items())[1:])
+                kms = [KMatrix(label="k1", matrix=first), KMatrix(label="k2", matrix=second)] + ([KMatrix(label="k3", matrix=third)] if third else [])
             else:
                 kms = [KMatrix(label="k1", matrix=entries)]
             mc = DecayMegacomplex(label="mc", k_matrix=kms)
@@ -585,3 +594,30 @@ class DecayAssociatedData(Contract):
         )
         km = ds["k_matrix_mc"]
         yield "k_matrix_reported_is_the_full_k_matrix", L.and_(*[L.eq(km.values[a, b], K[a][b]) for a in range(n) for b in range(n)])
+
+
+class SolutionLemma(Contract):
+    """The mathematics between the discharged obligations and the property, proved in Lean 4 + Mathlib for
+    every number of compartments and re-checked by `lean` on every run (`lemmas/DecayODE.lean`):
+    K a_l = -r_l a_l for every row a_l of the A-matrix and sum_l a_l = j imply
+    (exp(t K) j)_c = sum_l A[l,c] exp(-r_l t), the solution of c' = K c, c(0) = j (through: an eigenvector of
+    M is an eigenvector of exp M with eigenvalue exp mu, by the power series)."""
+
+    prop = "C04"
+    name = "SolutionLemma"
+    target = None
+    strength = "U"
+    trusted = ("Lean 4.33 kernel and Mathlib (NormedSpace.exp on matrices, Real.exp, Matrix.mulVec); axioms propext, Classical.choice, Quot.sound",)
+
+    def cases(self, tier):
+        return iter(())
+
+    def static_obligations(self, tier):
+        from pathlib import Path
+
+        from pyvc.lean import check_lemmas
+
+        return check_lemmas(
+            Path(__file__).resolve().parent.parent / "lemmas" / "DecayODE.lean",
+            {"PyVC.decay_concentration": "lemma_rate_equation_and_initial_condition_give_the_matrix_exponential_for_all_n"},
+        )
